@@ -107,7 +107,8 @@ Again == /\ Active(0) /\ pc[0] = End(0) /\ rounds > 0
 
 \* (race model only: the facts then also hold "acc" steps = the accesses to fields of the shared structures made
 \* between two lock operations; for the lock model they are not extracted)
-Access(t) == /\ Cur(t).k = "acc"
+\* ("recv": a receive from a channel / a range over a channel - whoever feeds the channel decides when it returns)
+Access(t) == /\ Cur(t).k \in {"acc", "recv"}
              /\ pc' = [pc EXCEPT ![t] = @ + 1]
              /\ UNCHANGED <<prog, wr, pw, rd, back, rounds>>
 
@@ -126,6 +127,11 @@ FairSpec == Spec /\ \A t \in Threads : WF_vars(Step(t)) /\ WF_vars(Again)
 
 TypeOK == /\ \A m \in Mutexes : wr[m] \in Threads \cup {-1}
           /\ \A m \in Mutexes, t \in Threads : rd[m][t] >= 0
+
+\* no call waits for a channel while it holds a lock: the goroutine that feeds the channel may need the database
+\* (a producer of InsertOrUpdateBulk that reads from the same handle), and every other call would wait with it
+NoWaitUnderLock == \A t \in Threads : (Active(t) /\ pc[t] < End(t) /\ Cur(t).k = "recv") =>
+                      \A m \in Mutexes : rd[m][t] = 0 /\ wr[m] # t
 
 \* a thread that has returned holds nothing
 Balanced == \A t \in Threads : (Active(t) /\ pc[t] = End(t)) => \A m \in Mutexes : rd[m][t] = 0 /\ wr[m] # t /\ t \notin pw[m]
